@@ -50,7 +50,7 @@ enum { DS_FAST, DS_SLOW, DS_STALL, DS_HANGUP, DS_N };
 static const char *const ds_names[] = { "fast", "slow", "stall", "hangup" };
 
 #define MAXOPS 96
-#define MAXCH 2
+#define MAXCH 3
 
 struct trial;
 typedef struct op {
@@ -543,6 +543,15 @@ static void make_channels(trial_t *t)
 	vf_rng_t *r = &t->rng;
 	t->nch = t->ctor == CT_WITH_IO ? 2 : 1;
 	t->opch = t->nch - 1;
+	/* a third channel, made from the first one and abandoned (released, never used, never closed) before its creation
+	 * was processed: its cleanup handler runs once, with error 0, like any other. Drawn from its own generator so the
+	 * scenarios of the trials stay what they were. */
+	int abandoned = 0;
+	if (t->ctor == CT_WITH_IO) {
+		vf_rng_t ar; vf_rng_seed(&ar, vf_opts.seed, (uint64_t)t->idx * 7919 + 3);
+		abandoned = vf_opt_long("force-abandoned", -1) >= 0 ? (int)vf_opt_long("force-abandoned", -1) : vf_rnd_n(&ar, 4) == 0;
+		if (abandoned) t->nch = 3;
+	}
 	for (int i = 0; i < t->nch; i++) {
 		chan_t *c = &t->ch[i];
 		memset(c, 0, sizeof(*c));
@@ -570,6 +579,13 @@ static void make_channels(trial_t *t)
 		c1->io = vf_rnd_n(r, 2) ? dispatch_io_create_with_io_f((dispatch_io_type_t)t->mode, c0->io, t->cq, c1, h_cleanup)
 				: dispatch_io_create_with_io((dispatch_io_type_t)t->mode, c0->io, t->cq, ^(int e) { h_cleanup(c1, e); });
 		if (!c1->io) vf_fail("dispatch_io_create_with_io returned NULL");
+		if (abandoned) {
+			chan_t *c2 = &t->ch[2];
+			c2->io = dispatch_io_create_with_io((dispatch_io_type_t)t->mode, c0->io, t->cq, ^(int e) { h_cleanup(c2, e); });
+			if (!c2->io) vf_fail("dispatch_io_create_with_io returned NULL");
+			dispatch_release(c2->io);
+			vf_count("derived_channels_abandoned_before_creation_was_processed", 1);
+		}
 	}
 }
 
